@@ -551,3 +551,27 @@ Theorem writers_conserve_when_done vals cmds sched :
 Proof.
   intros Hw Hnn s Hdone k. pose proof (writers_conserve vals cmds sched Hw Hnn k) as H. fold s in H. rewrite H, (asum_done k _ Hdone). lia.
 Qed.
+
+(* no hold-and-wait among writers, also while keys are created and unlinked: a thread inside Lock()
+   holds nothing; a thread that holds a record is past its Lock() and holds exactly that one record,
+   exclusively - so the holder of any record can always run to its commit, and no cycle of waiting
+   threads can form *)
+Theorem writers_no_hold_and_wait vals cmds sched t x :
+  writers_only cmds -> (forall kv, In kv vals -> 0 <= snd kv) ->
+  let s := run_micro sched (init_state vals cmds) in
+  nget t (ths s) = Some x ->
+  (forall r sec, t_pc x = PWait r sec -> t_held x = []) /\
+  (t_held x <> [] -> exists r, t_held x = [(r, true)] /\ r_w (get_rec r s) = Some t /\
+                     match t_pc x with PLocked _ _ | PPub _ _ | PLoaded _ _ _ | PStored _ _ | PUnlink _ _ => True | _ => False end).
+Proof.
+  intros Hw Hnn s Hx. destruct (gV _ s (run_micro_G _ sched _ (init_G vals cmds Hw Hnn)) t x Hx) as [k [Hk Hp]].
+  split.
+  - intros r sec E. rewrite E in Hp. destruct sec; [contradiction|]. apply Hp.
+  - intro Hne. destruct (t_pc x) as [|r [|]|r [|]|r [|]|[|]|r [|]|r tmp [|]|r [|]|r p|rp]; try contradiction;
+      try (exfalso; apply Hne; apply Hp); try (exfalso; apply Hne; apply (proj1 Hp)).
+    + destruct Hp as [Hh [Hw' _]]. exists r. repeat split; assumption.
+    + destruct Hp as [Hh [Hw' _]]. exists r. repeat split; assumption.
+    + destruct Hp as [[Hh [Hw' _]] _]. exists r. repeat split; assumption.
+    + destruct Hp as [[Hh [Hw' _]] _]. exists r. repeat split; assumption.
+    + destruct Hp as [[Hh [Hw' _]] _]. exists r. repeat split; assumption.
+Qed.
